@@ -61,6 +61,10 @@ fn main() {
         Some("replay") if args.len() >= 3 && std::env::var("VERIF_CHILD").is_err() => supervise_replay(&args[2]),
         Some("run") if args.len() >= 4 => cmd_run(&args[2], &args[3]),
         Some("replay") if args.len() >= 3 => cmd_replay(&args[2]),
+        // the unoptimised (dev profile) build runs this: deep chains, where a recursion that an
+        // optimising build turns into a loop still costs a stack frame per packet
+        Some("deep") if args.len() >= 3 && std::env::var("VERIF_CHILD").is_err() => supervise_deep(&args[2], args.get(3).map(|s| s.as_str())),
+        Some("deep") if args.len() >= 3 => cmd_deep(args.get(3).map(|s| s.as_str())),
         Some("range") if args.len() >= 6 => cmd_range(&args[2], &args[3], args[4].parse().unwrap_or(0), args[5].parse().unwrap_or(0), args.get(6).map(|s| s.as_str())),
         Some("digest") if args.len() >= 4 => cmd_digest(&args[2], args[3].parse().unwrap_or(1000)),
         _ => {
@@ -171,6 +175,119 @@ fn triage_crash(id: &str, tier: &str, how: &str) -> i32 {
     } else {
         println!("# harness error: a call into rtcp-types ended the process abnormally ({how2}); that is property C01's concern, this check cannot continue (case written to {path})");
         2
+    }
+}
+
+/// The deliveries of the deep step: a million header-only packets, valid all the way and with a
+/// zero tail; or the delivery of a replay file.
+fn deep_inputs(file: Option<&str>) -> Vec<Vec<u8>> {
+    if let Some(path) = file {
+        let bytes = std::fs::read_to_string(path).ok().and_then(|t| J::parse(&t).ok()).and_then(|j| j.obj_of("case").ok().and_then(|c| c.str_of("deliver").ok().and_then(|h| json::unhex(h).ok())));
+        return bytes.into_iter().collect();
+    }
+    let chain = lensweep::long_chain();
+    let mut zero_tail = vec![0u8; 4 << 20];
+    zero_tail[..4].copy_from_slice(&[0x80, 203, 0, 0]);
+    vec![chain, zero_tail]
+}
+
+/// What the deep step does with a delivery: decide acceptance, walk the iterator in the ways a
+/// caller can, touch each item.  No oracle besides "returns normally": the release build judges
+/// the values.
+fn cmd_deep(file: Option<&str>) -> i32 {
+    use rtcp_types::prelude::*;
+    use rtcp_types::{Compound, Packet};
+    let file_owned = file.map(|s| s.to_string());
+    let run = move || {
+        for d in deep_inputs(file_owned.as_deref()) {
+            if let Ok(c) = Compound::parse(&d) {
+                let mut n = 0usize;
+                for item in c {
+                    n += 1;
+                    if let Ok(p) = item {
+                        if let Packet::Bye(b) = &p {
+                            let _ = b.ssrcs().count();
+                            let _ = b.length();
+                        }
+                    } else {
+                        break;
+                    }
+                    if n > (1 << 21) {
+                        break;
+                    }
+                }
+                let _ = Compound::parse(&d).map(|c| c.count());
+                let _ = Compound::parse(&d).map(|c| c.last().is_some());
+                let _ = Compound::parse(&d).map(|mut c| c.nth(1 << 19).is_some());
+                let _ = Compound::parse(&d).map(|c| format!("{c:?}").len());
+            }
+            let _ = Packet::parse(&d).is_ok();
+        }
+    };
+    // the stack a main thread gets by default on Linux
+    match std::thread::Builder::new().stack_size(8 << 20).spawn(run) {
+        Ok(h) => {
+            if h.join().is_err() {
+                // an unwind is the release build's business (it sees the same one and reports it)
+                return 0;
+            }
+            0
+        }
+        Err(_) => 2,
+    }
+}
+
+fn supervise_deep(id: &str, file: Option<&str>) -> i32 {
+    let mut args = vec!["deep", id];
+    if let Some(f) = file {
+        args.push(f);
+    }
+    match child_status(&args) {
+        Ok(c) => c,
+        Err(how) => {
+            let Some(check) = find(id) else { return 2 };
+            let path = match file {
+                Some(f) => f.to_string(),
+                None => {
+                    // which of the two deliveries: re-run each alone through a one-delivery replay file
+                    let seed = env_u64("VERIF_SEED", 1);
+                    let mut found = None;
+                    for d in deep_inputs(None) {
+                        let f = J::obj()
+                            .set("format", 1)
+                            .set("property", id)
+                            .set("verif_seed", seed)
+                            .set("episode", lensweep::LONG_CHAIN_EPISODE)
+                            .set("minimised", false)
+                            .set("profile", "dev")
+                            .set("violation", J::obj().set("class", "Crash").set("detail", format!("an unoptimised (dev profile, opt-level 0) build ends abnormally ({how}) on this delivery: a failure that is not an unwind, e.g. one stack frame per packet")))
+                            .set("case", check.raw_case(&d, &[]));
+                        let p = write_replay(id, seed, &f);
+                        if child_status(&["deep", id, &p]).is_err() {
+                            found = Some(p);
+                            break;
+                        }
+                        let _ = std::fs::remove_file(&p);
+                    }
+                    match found {
+                        Some(p) => p,
+                        None => {
+                            println!("# harness error: the deep step ended abnormally ({how}) but neither delivery reproduces it alone");
+                            return 2;
+                        }
+                    }
+                }
+            };
+            if check.hang_is_violation() {
+                println!("VIOLATION property={id} replay={path}");
+                println!("#   class=Crash detail=an unoptimised (dev profile) build ends abnormally ({how}) on this delivery");
+                println!("# verdict: VIOLATION (crash in the dev-profile deep step)");
+                1
+            } else {
+                println!("# harness error: the deep step ended abnormally ({how}) (case written to {path})");
+                2
+            }
+        }
     }
 }
 
